@@ -29,7 +29,9 @@ func init() {
 
 var c17ArbA = zzverif.Printable("") + "\t\n"
 
-var c17ArbContexts = []string{"", "    ", "2024-01-15 ", ";", "    a:b  1 "}
+// the first 5 contexts: quick; all: thorough
+var c17ArbContexts = []string{"", "    ", "2024-01-15 ", ";", "    a:b  1 ",
+	"2024-01-15 * (c) p | ", "account ", "    a:b  1 USD @ ", "; a:", "commodity 1.00 ", "x\n"}
 
 type c17ArbLine struct {
 	u16                    int // length of the content in UTF-16 units
@@ -37,8 +39,8 @@ type c17ArbLine struct {
 	semi                   bool
 }
 
-func verifC17Arbitrary(k int) {
-	ctxText := c17ArbContexts[zzverif.Choice("context", len(c17ArbContexts))]
+func verifC17Arbitrary(k, nctx int) {
+	ctxText := c17ArbContexts[zzverif.Choice("context", nctx)]
 	doc := ctxText
 	type slot struct {
 		s   string
@@ -143,5 +145,5 @@ func verifC17Arbitrary(k int) {
 	zzverif.Reach("C17.arbitrary.end")
 }
 
-func VerifC17Arbitrary()     { verifC17Arbitrary(3) }
-func VerifC17ArbitraryLong() { verifC17Arbitrary(4) }
+func VerifC17Arbitrary()     { verifC17Arbitrary(3, 5) }
+func VerifC17ArbitraryLong() { verifC17Arbitrary(3, len(c17ArbContexts)) }
